@@ -1,2 +1,175 @@
+import PelModel.Cli
+import PelProofs.CliDir
+/-
+  C09 — Unreadable files in a PEL directory never disturb the output for the others.
+  In the model the section decoders are readers `Rd α = StateT Bytes (Except Err) α`: they have no way to write to
+  standard output at all, so "decoders are silent on stdout" holds by construction; stdout is produced only by the
+  mode functions below.
+-/
 namespace Pel.C09
+
+/-- a file the summary modes (--list, --plid, --src) cannot decode / do not select -/
+def junkForSummary (env : Env) (cfg : SelCfg) (f : FileEntry) : Prop :=
+  ∀ x, summaryOf env cfg f ≠ .some x
+def junkForFull (env : Env) (cfg : SelCfg) (f : FileEntry) : Prop :=
+  ∀ x, fullOf env cfg f ≠ .some x
+def junkForCount (env : Env) (cfg : SelCfg) (f : FileEntry) : Prop :=
+  countOne env cfg f ≠ .some ()
+
+/-- adding a junk file anywhere in the directory (walk order is arbitrary) -/
+def withJunk (d1 : Dir) (j : FileEntry) (d2 : Dir) : Dir := d1 ++ j :: d2
+
+/-- names in a directory are distinct -/
+def distinctNames (d : Dir) : Prop := (d.map (·.name)).Nodup
+
+/-- the sorted list with a junk file added is the old sorted list with the junk file inserted somewhere -/
+theorem sort_with_junk (d1 d2 : Dir) (j : FileEntry) (hd : distinctNames (withJunk d1 j d2)) :
+    ∃ a b, sortByName (withJunk d1 j d2) = a ++ j :: b ∧ sortByName (d1 ++ d2) = a ++ b := by
+  rw [sortByName_eq, sortByName_eq]
+  exact sortBy_with_junk (fun f : FileEntry => f.name) j d2 d1 hd
+
+/-- ★ --list: what is printed, and the exit status, do not change; diagnostics only grow -/
+theorem list_noninterference (env : Env) (o : CliOpts) (d1 d2 : Dir) (j : FileEntry)
+    (hd : distinctNames (withJunk d1 j d2)) (hj : junkForSummary env o.cfg j) :
+    (listMode env o (withJunk d1 j d2)).stdout = (listMode env o (d1 ++ d2)).stdout ∧
+    (listMode env o (withJunk d1 j d2)).exit = 0 ∧
+    (listMode env o (d1 ++ d2)).stderrLines ≤ (listMode env o (withJunk d1 j d2)).stderrLines := by
+  obtain ⟨a, b, h0, h1⟩ := getFileList_junk d1 d2 j o.ext o.rev hd
+  unfold listMode withJunk
+  simp only []
+  rw [h0]
+  rcases h1 with h1 | h1 <;> rw [h1]
+  · refine ⟨?_, trivial, by rw [List.map_map, List.map_map]; exact countDiag_junk _ a b j⟩
+    rw [filterMap_map_junk _ _ a b j]
+    cases hs : summaryOf env o.cfg j with
+    | some x => exact absurd hs (hj x)
+    | skip => rfl
+    | diag => rfl
+  · exact ⟨rfl, trivial, Nat.le_refl _⟩
+
+/-- ★ --all-pels -/
+theorem all_noninterference (env : Env) (o : CliOpts) (d1 d2 : Dir) (j : FileEntry)
+    (hd : distinctNames (withJunk d1 j d2)) (hj : junkForFull env o.cfg j) :
+    (allMode env o (withJunk d1 j d2)).stdout = (allMode env o (d1 ++ d2)).stdout ∧
+    (allMode env o (withJunk d1 j d2)).exit = 0 := by
+  obtain ⟨a, b, h0, h1⟩ := getFileList_junk d1 d2 j o.ext o.rev hd
+  unfold allMode withJunk
+  simp only []
+  rw [h0]
+  rcases h1 with h1 | h1 <;> rw [h1]
+  · refine ⟨?_, trivial⟩
+    rw [filterMap_map_junk _ _ a b j]
+    cases hs : fullOf env o.cfg j with
+    | some x => exact absurd hs (hj x)
+    | skip => rfl
+    | diag => rfl
+  · exact ⟨rfl, trivial⟩
+
+/-- ★ --show-pel-count (junk = files whose two headers cannot be decoded) -/
+theorem count_noninterference (env : Env) (o : CliOpts) (d1 d2 : Dir) (j : FileEntry)
+    (hd : distinctNames (withJunk d1 j d2)) (hj : junkForCount env o.cfg j) :
+    (countMode env o (withJunk d1 j d2)).stdout = (countMode env o (d1 ++ d2)).stdout ∧
+    (countMode env o (withJunk d1 j d2)).exit = 0 := by
+  obtain ⟨a, b, h0, h1⟩ := getFileList_junk d1 d2 j o.ext false hd
+  unfold countMode withJunk keepSome
+  simp only []
+  rw [h0]
+  rcases h1 with h1 | h1 <;> rw [h1]
+  · refine ⟨?_, trivial⟩
+    rw [filterMap_map_junk _ _ a b j]
+    cases hs : countOne env o.cfg j with
+    | some x => exact absurd hs hj
+    | skip => rfl
+    | diag => rfl
+  · exact ⟨rfl, trivial⟩
+
+/-- ★ --plid -/
+theorem plid_noninterference (env : Env) (o : CliOpts) (x : Text) (d1 d2 : Dir) (j : FileEntry)
+    (hd : distinctNames (withJunk d1 j d2)) (hj : junkForSummary env { o.cfg with lookup := true } j) :
+    (plidMode env o x (withJunk d1 j d2)).stdout = (plidMode env o x (d1 ++ d2)).stdout ∧
+    (plidMode env o x (withJunk d1 j d2)).exit = (plidMode env o x (d1 ++ d2)).exit := by
+  obtain ⟨a, b, h0, h1⟩ := getFileList_junk d1 d2 j o.ext o.rev hd
+  unfold plidMode withJunk
+  cases processId x with
+  | none => exact ⟨rfl, rfl⟩
+  | some pid =>
+    simp only []
+    rw [h0]
+    rcases h1 with h1 | h1 <;> rw [h1]
+    · refine ⟨?_, trivial⟩
+      rw [filterMap_map_junk _ _ a b j]
+      cases hs : summaryOf env { o.cfg with lookup := true } j with
+      | some x => exact absurd hs (hj x)
+      | skip => rfl
+      | diag => rfl
+    · exact ⟨rfl, trivial⟩
+
+/-- ★ --src / --src-exclude -/
+theorem src_noninterference (env : Env) (o : CliOpts) (needle ex : Option Text) (d1 d2 : Dir) (j : FileEntry)
+    (hd : distinctNames (withJunk d1 j d2)) (hj : junkForSummary env { o.cfg with lookup := true } j) :
+    (srcMode env o needle ex (withJunk d1 j d2)).stdout = (srcMode env o needle ex (d1 ++ d2)).stdout ∧
+    (srcMode env o needle ex (withJunk d1 j d2)).exit = (srcMode env o needle ex (d1 ++ d2)).exit := by
+  obtain ⟨a, b, h0, h1⟩ := getFileList_junk d1 d2 j o.ext o.rev hd
+  unfold srcMode withJunk
+  refine ite_out _ _ _ _ ?_
+  simp only []
+  rw [h0]
+  rcases h1 with h1 | h1 <;> rw [h1]
+  · refine ⟨?_, trivial⟩
+    rw [filterMap_map_junk _ _ a b j]
+    cases hs : summaryOf env { o.cfg with lookup := true } j with
+    | some x => exact absurd hs (hj x)
+    | skip => rfl
+    | diag => rfl
+  · exact ⟨rfl, trivial⟩
+
+/-- ★ --json: the same output files are created for the other PELs -/
+theorem json_noninterference (env : Env) (o : CliOpts) (clean : Bool) (d1 d2 : Dir) (j : FileEntry)
+    (hj : junkForFull env o.cfg j) :
+    (jsonMode env o clean (withJunk d1 j d2)).created = (jsonMode env o clean (d1 ++ d2)).created ∧
+    (jsonMode env o clean (withJunk d1 j d2)).removed = (jsonMode env o clean (d1 ++ d2)).removed := by
+  unfold jsonMode withJunk
+  simp only []
+  refine ⟨?_, ?_⟩
+  · rw [filter_filterMap_junk]
+    cases hs : fullOf env o.cfg j with
+    | some x => exact absurd hs (hj x)
+    | skip => rfl
+    | diag => rfl
+  · cases clean
+    · rfl
+    · simp only [if_true]
+      rw [filter_filterMap_junk]
+      cases hs : fullOf env o.cfg j with
+      | some x => exact absurd hs (hj x)
+      | skip => rfl
+      | diag => rfl
+
+/-- ★ whatever the directory contains, stdout of the JSON modes is the print-out of ONE document and the exit status is 0 -/
+theorem stdout_is_one_document (env : Env) (o : CliOpts) (d : Dir) (hnohex : o.hex = false) :
+    (∃ doc, (listMode env o d).stdout = prettyPrint 29 (dumps doc) ++ nl) ∧
+    (∃ docs : List J, (allMode env o d).stdout = listFraming (docs.map fun x => prettyPrint 34 (dumps x))) ∧
+    (∃ n, (countMode env o d).stdout = s "{\n    \"Number of PELs found\": " ++ natDec n ++ s "\n}\n") ∧
+    (listMode env o d).exit = 0 ∧ (allMode env o d).exit = 0 ∧ (countMode env o d).exit = 0 := by
+  unfold listMode allMode countMode
+  simp only [hnohex, Bool.false_eq_true, if_false]
+  exact ⟨⟨_, rfl⟩, ⟨_, congrArg listFraming (List.map_map (f := fun p : FileEntry × (Text × J) => p.2.2)
+    (g := fun x => prettyPrint 34 (dumps x))).symm⟩, ⟨_, rfl⟩, trivial, trivial, trivial⟩
+
+/-- with --hex: a sequence of delimited hex dumps, one per decodable selected file -/
+theorem hex_is_dump_sequence (env : Env) (o : CliOpts) (d : Dir) (hhex : o.hex = true) :
+    ∃ fs : List FileEntry, (∀ f ∈ fs, f ∈ d) ∧ (allMode env o d).stdout = fs.flatMap (fun f => linesOut (pelHexDisplay f.data)) := by
+  unfold allMode
+  simp only [hhex, if_true]
+  refine ⟨List.map (fun p : FileEntry × (Text × J) => p.1) ?l, ?mem, ?eq⟩
+  case eq => rw [List.flatMap_map]
+  intro f hf
+  simp only [List.mem_map, List.mem_filterMap] at hf
+  obtain ⟨p, ⟨q, ⟨f', hf', rfl⟩, hq⟩, rfl⟩ := hf
+  have hmem := ((mem_getFileList d o.ext o.rev f').1 hf').1
+  cases hs : fullOf env o.cfg f' with
+  | some x => simp only [hs, Option.some.injEq] at hq; rw [← hq]; exact hmem
+  | skip => simp [hs] at hq
+  | diag => simp [hs] at hq
+
 end Pel.C09
